@@ -31,7 +31,7 @@ ASSUMPTIONS = [
     '"does not block the event loop" is measured (a ticker task must keep ticking in virtual time while the source '
     'blocks), not proved',
 ]
-RULE = ('sources of length 0..6 (generator, iterator, list, range; async generator for to_sync_iter) with a failure at '
+RULE = ('sources of length 0..6 (generator, blocking iterator object that is not a generator, list iterator, list, range; async generator for to_sync_iter) with a failure at '
         'every position or none, elements including None / 0 / "" / False / [] / duplicates, producer step durations '
         'from a grid (producer faster, slower, finished before the first read); real threads under the baton scheduler '
         '(schedule points at every source step, channel put, queue get, future wait, pool join); each execution\'s '
@@ -210,7 +210,7 @@ def gen_case(rng):
     n = rng.randint(0, 6)
     ids = [rng.randrange(len(TABLE)) for _ in range(n)]
     fail = rng.choice([None, None] + list(range(n + 1)))
-    kind = rng.choice(['async:gen', 'async:gen', 'async:iter', 'async:list', 'async:range', 'async:reiter',
+    kind = rng.choice(['async:gen', 'async:gen', 'async:objiter', 'async:iter', 'async:list', 'async:range', 'async:reiter',
                        'sync:agen', 'sync:agen'])
     if kind in ('async:list', 'async:range', 'async:iter'):
         fail = None
@@ -227,7 +227,7 @@ def gen_case(rng):
     elif fail is not None and rng.random() < 0.3:
         # ... or with one of the classes that futures bridging threads and loops replace by copies / other classes
         case['exckind'] = rng.choice([1, 2, 3])
-    if kind == 'async:gen' and n >= 2 and fail is None and rng.random() < 0.3:
+    if kind in ('async:gen', 'async:objiter') and n >= 2 and fail is None and rng.random() < 0.3:
         # the consumer stops early: it takes k elements and closes the async iterator while the source still has
         # (blocking) steps to go
         case['stop_after'] = rng.randint(1, n - 1)
@@ -305,7 +305,16 @@ def run_case(case, seed, pct=0, choices=None):
                     class ReIter:
                         def __iter__(self):
                             return src()
-                    source = (src() if k == 'async:gen' else iter([TABLE[e] for e in ids]) if k == 'async:iter'
+                    class ObjIter:
+                        # an iterator that is not a generator (a file-like object, map(...), iter(callable, sentinel)):
+                        # its steps block just the same
+                        def __init__(self):
+                            self.g = src()
+                        def __iter__(self):
+                            return self
+                        def __next__(self):
+                            return next(self.g)
+                    source = (src() if k == 'async:gen' else ObjIter() if k == 'async:objiter' else iter([TABLE[e] for e in ids]) if k == 'async:iter'
                               else [TABLE[e] for e in ids] if k == 'async:list' else ReIter() if k == 'async:reiter'
                               else range(len(ids)))
                     if case.get('stop_after'):
@@ -427,7 +436,7 @@ def judge(case, r):
                                     f"with {r.get('end2')!r}; the source yields {full!r}")
     if r['workers_alive']:
         return 'thread-left', f'helper thread(s) {r["workers_alive"]} still running after iteration finished'
-    if case['kind'] == 'async:gen':
+    if case['kind'] in ('async:gen', 'async:objiter'):
         total = sum(case['delays'][:len(exp) + (0 if case['fail'] is not None else 0)])
         if total >= 3 and r['ticks'] < total - 2:
             return 'blocked-loop', f'the event loop ticked {r["ticks"]} times while the source blocked for {total} virtual seconds'
@@ -486,7 +495,7 @@ def _chunk(payload):
         out.count('kind:' + case['kind'])
         out.count('fail:' + ('none' if case['fail'] is None else 'yes'))
         out.count('len:%d' % len(case['ids']))
-        if case['kind'] in ('async:gen', 'sync:agen') and not r['hung']:
+        if case['kind'] in ('async:gen', 'async:objiter', 'sync:agen') and not r['hung']:
             runs.append((case, r))       # (an early close by the consumer: the extended LTS of Bridge/CloseModel.lean)
         if case.get('stop_after'):
             out.count('consumer-closes-early')
